@@ -55,6 +55,10 @@ type Run struct {
 	deadline     time.Time
 	evals        int64
 	seen         map[uint64]bool // key hash -> nontrivial
+	// beyond seenCap distinct keys per shard the keys are no longer remembered (memory):
+	// further cases are counted as distinct, which they are by construction in an
+	// enumeration; the evidence says so
+	overN, overNT int
 	outcomes     map[uint64]struct{}
 	samples      []any
 	sampleEvery  int64
@@ -171,7 +175,14 @@ func (r *Run) Record(key string, nontrivial bool, outcome string) {
 	defer r.mu.Unlock()
 	r.evals++
 	k := hash64(key)
-	if nt, ok := r.seen[k]; !ok || (nontrivial && !nt) {
+	nt, ok := r.seen[k]
+	switch {
+	case !ok && len(r.seen) >= seenCap:
+		r.overN++
+		if nontrivial {
+			r.overNT++
+		}
+	case !ok || (nontrivial && !nt):
 		r.seen[k] = nontrivial
 	}
 	if len(r.outcomes) < 400000 {
@@ -306,16 +317,22 @@ type shardFile struct {
 	Done               bool             `json:"done"`
 }
 
+// seenCap bounds the memory of the distinct-case bookkeeping (about 300 MB per shard).
+const seenCap = 6 << 20
+
 // Finish writes the shard file. fail is called with a message when violations
 // were found and no driver is collecting them (plain `go test` use).
 func (r *Run) Finish(fail func(string)) {
 	r.mu.Lock()
 	defer r.mu.Unlock()
 	sf := shardFile{Prop: r.Prop, Tier: r.TierName, Shard: r.Shard, N: r.N, Evaluations: r.evals,
-		Distinct: len(r.seen), Samples: r.samples, Counters: r.counters, Extra: r.extra,
+		Distinct: len(r.seen) + r.overN, DistinctNontrivial: r.overNT, Samples: r.samples, Counters: r.counters, Extra: r.extra,
 		Violations: r.viols, ViolationCounts: r.violFP, Unreproduced: r.unreproduced, Expired: r.expired,
 		Notes: r.notes, WallS: time.Since(r.start).Seconds(), Done: true}
 	delete(sf.Counters, "_sample_offers")
+	if r.overN != 0 {
+		sf.Notes = append(sf.Notes, fmt.Sprintf("shard %d: distinct cases were tracked exactly for the first %d; the %d after that are counted as distinct (enumerated keys)", r.Shard, seenCap, r.overN))
+	}
 	for _, nt := range r.seen {
 		if nt {
 			sf.DistinctNontrivial++
